@@ -242,10 +242,13 @@ def parse_axioms(text: str) -> dict[str, list[str]]:
 
 
 def load_known_findings() -> list[dict]:
+    out = []
     p = VERIF / "known_findings.json"
-    if not p.exists():
-        return []
-    return json.loads(p.read_text())
+    if p.exists():
+        out += json.loads(p.read_text())
+    for f in sorted((VERIF / "known_findings.d").glob("*.json")):   # per-property fragments (merged by mkmanifest.py)
+        out += json.loads(f.read_text())
+    return out
 
 
 def lean_stage(ctx: Ctx, H) -> dict:
